@@ -1027,11 +1027,25 @@ func (c *glCtx) assign(x *ast.AssignStmt, rest []ast.Stmt, d int) string {
 func (c *glCtx) assign2(x *ast.AssignStmt, rest []ast.Stmt, d int) string {
 	// several results of one call
 	if len(x.Lhs) > 1 && len(x.Rhs) == 1 {
+		var term string
+		var tys []string
 		call, ok := x.Rhs[0].(*ast.CallExpr)
-		if !ok {
-			c.fail(x, "multi-assignment from a non-call")
+		if ok {
+			term, tys = c.call(call)
+		} else {
+			// `v, ok := m[k]` (or any other comma-ok form) configured as a path: the Lean term yields the tuple and the
+			// configured type is the comma-separated list of the Go types
+			key := strings.Join(strings.Fields(c.p.str(x.Rhs[0])), "")
+			found := false
+			for k, r := range c.t.paths {
+				if strings.Join(strings.Fields(k), "") == key {
+					term, tys, found = r[0], strings.Split(r[1], ","), true
+				}
+			}
+			if !found {
+				c.fail(x, "multi-assignment from a non-call")
+			}
 		}
-		term, tys := c.call(call)
 		if len(tys) != len(x.Lhs) {
 			c.fail(x, "call yields %d values for %d variables", len(tys), len(x.Lhs))
 		}
